@@ -56,33 +56,33 @@ impl Runner for SubprocessRunner {
             .env_extend(&Vec::from_iter(envs.iter()))
             .cwd(&context.work_directory);
 
+        // The shell reads the expression from a temporary file, not from a pipe: a shell that
+        // ends before it has read all of a large expression (`exit 80` in the first of many
+        // test cases) breaks the pipe, and what the subprocess crate reports then (a timeout
+        // or an I/O error, depending on how far the writing got) says nothing about the
+        // exit code. For detached executions there is one more reason: the subprocess crate
+        // closes the STDIN pipe when it goes out of scope, which interrupts the child.
         let input = &testcase.shell_expression as &str;
         let is_detached = testcase.config.detached.unwrap_or(false);
+        let mut tmp =
+            tempfile_in(&context.temp_directory).context("Create temporary STDIN file")?;
+        tmp.write_all(input.as_bytes())
+            .context("write to STDIN file")?;
+        tmp.seek(std::io::SeekFrom::Start(0))
+            .context("reset STDIN file")?;
+        exec = exec.stdin(Redirection::File(tmp));
         if is_detached {
-            // Why is a temporary file created here? Because the subprocess crate closes the
-            // STDIN pipe when it goes out of scope, which will interrupt the detached child.
-            let mut tmp =
-                tempfile_in(&context.temp_directory).context("Create temporary STDIN file")?;
-            tmp.write(input.as_bytes()).context("write to STDIN file")?;
-            tmp.seek(std::io::SeekFrom::Start(0))
-                .context("reset STDIN file")?;
-            exec = exec
-                .stdout(NullFile)
-                .stderr(NullFile)
-                .stdin(Redirection::File(tmp));
+            exec = exec.stdout(NullFile).stderr(NullFile);
         } else {
-            exec = exec
-                .stdout(Redirection::Pipe)
-                .stderr(
-                    if testcase.config.output_stream
-                        == Some(crate::config::OutputStreamControl::Combined)
-                    {
-                        Redirection::Merge
-                    } else {
-                        Redirection::Pipe
-                    },
-                )
-                .stdin(Redirection::Pipe);
+            exec = exec.stdout(Redirection::Pipe).stderr(
+                if testcase.config.output_stream
+                    == Some(crate::config::OutputStreamControl::Combined)
+                {
+                    Redirection::Merge
+                } else {
+                    Redirection::Pipe
+                },
+            );
         }
 
         let mut process = exec.detached().popen().context("start process")?;
@@ -101,7 +101,7 @@ impl Runner for SubprocessRunner {
 
         // constraint max execution time?
         let started = Instant::now();
-        let mut comm = process.communicate_start(Some(input.as_bytes().to_vec()));
+        let mut comm = process.communicate_start(None);
         if let Some(timeout) = testcase.config.timeout {
             comm = comm.limit_time(timeout);
             debug!(
